@@ -30,6 +30,11 @@ def gen_unit_spec(r, name, is_async, max_pre=3, max_post=2, max_snap=2, forms=Tr
         u["kwargs"] = True  # the function also accepts **kwargs (reserved names may then be passed by a caller)
     u["pre"] = [gen_contract(r, is_async, forms) for _ in range(r.randint(0, max_pre))]
     u["post"] = [gen_contract(r, is_async, forms) for _ in range(r.randint(0, max_post))]
+    for c in u["post"]:
+        if c.get("error") == "factory" and r.random() < 0.5:
+            c["err_params"] = r.choice([["OLD"], ["result"], ["OLD", "result"], ["t"]])
+        if r.random() < 0.3:
+            c["no_old"] = True  # the condition itself does not name OLD (an error factory still may)
     if u["post"]:
         u["snaps"] = [({"style": r.choice(["sync", "async", "corolambda", "awaitable"])} if is_async else {}) for _ in range(r.randint(0, max_snap))]
     return u
